@@ -22,6 +22,8 @@ def drive(ctx, gens, nbeh, depth, name="rt"):
     binary = vlib.go_build_test(ctx, "c05")
     out = os.path.join(ctx.scratch, name + ".ndjson")
     vlib.go_run(ctx, binary, "TestRuntime", {"VERIF_IN": inp, "VERIF_OUT": out}, timeout=3000)
+    if ctx.tier == "thorough" and name == "rt":
+        vlib.race_stage(ctx, "c05", "TestRuntime", {"VERIF_IN": inp, "VERIF_OUT": out})
     return behs, out
 
 
